@@ -13,7 +13,7 @@ def main():
     case = {c.id: c for c in H.cases(d['tier'], mods)}[d['case']]
     box = {}
     def body(ex):
-        shims.clear_caches(mods)
+        shims.reset_library(mods)
         ctx = SymCtx(mods, ex, _new_stats('p'), case.id, pins=d['model'], seed=0)
         box['ctx'] = ctx
         return case.fn(ctx)
